@@ -525,10 +525,13 @@ theorem slbfgs_fallback (c : SCfg α) (n : Nat) (γ : α) (J : List Nat) (q : Ve
 
 /-- **Free part of the direction**: with active *and* inactive indices present, CBFGS off, `J`
     duplicate-free and in range, a non-empty buffer: `apply_masked` is called on the corrected
-    right-hand side; it succeeds iff its scaling `γ_m` is not negative, and then
-    `q_J = H(γ_m; history restricted to J) · rhs_J` — the masked L-BFGS system of C09 (e) — while
-    `q_K = p_K`.  Otherwise the failure policy decides: the returned flag is
-    `slbfgsFailureReturn`, `q` is `fallback` of what `apply_masked` left. -/
+    right-hand side.  It fails iff `maskedFail` — no non-negative step size (curvature policy or
+    `γ < 0`) *and* no stored pair valid on `J` (`Props.C09.maskedFail_iff`); it never fails because of
+    the sign of a curvature.  On success `q_J = H(γ_m; history restricted to J) · rhs_J` with the
+    scaling `γ_m` of the newest pair valid on `J` (of either sign; `maskedGamma_newest_valid`) — the
+    masked L-BFGS system of C09 (e) — while `q_K = p_K`.  On failure `apply_masked` has left `q`
+    equal to the right-hand side, and the failure policy decides: the returned flag is
+    `slbfgsFailureReturn`, `q` is `fallback` of the right-hand side. -/
 theorem slbfgs_apply_partial (P : SProblem α) (c : SCfg α) (st : State α) (hI : Inv st)
     (hne : st.isEmpty = false) (γ : α) (x xh p g q0 : Vec α)
     (hcb : cbfgsEnabled c.accel.cbfgsAlpha c.accel.cbfgsEps = false)
@@ -537,8 +540,8 @@ theorem slbfgs_apply_partial (P : SProblem α) (c : SCfg α) (st : State α) (hI
     (hnd : (P.inactive γ x g).Nodup) (hlt : ∀ j ∈ P.inactive γ x g, j < P.n) :
     ∃ st' q' ok, C09.applyMasked c.accel st (SLbfgs.rhs P c γ x xh p g (P.inactive γ x g)) γ
           (P.inactive γ x g) = .done st' q' ok ∧ st'.abs = st.abs ∧
-      ok = decide (¬ Props.C09.maskedGamma c.accel st (SLbfgs.rhs P c γ x xh p g (P.inactive γ x g)) γ
-                      (P.inactive γ x g) < 0) ∧
+      ok = !Props.C09.maskedFail c.accel st (SLbfgs.rhs P c γ x xh p g (P.inactive γ x g)) γ
+                      (P.inactive γ x g) ∧
       (ok = true →
         SLbfgs.apply P c st γ x xh p g q0 = .done st' true q' ∧
         G false (P.inactive γ x g) q' =
@@ -548,15 +551,18 @@ theorem slbfgs_apply_partial (P : SProblem α) (c : SCfg α) (st : State α) (hI
             (G false (P.inactive γ x g) (SLbfgs.rhs P c γ x xh p g (P.inactive γ x g))) ∧
         ∀ j, j ∉ P.inactive γ x g → vget q' j = vget p j) ∧
       (ok = false →
+        q' = SLbfgs.rhs P c γ x xh p g (P.inactive γ x g) ∧
         SLbfgs.apply P c st γ x xh p g q0 =
-          .done st' (slbfgsFailureReturn c.policy false) (SLbfgs.fallback c P.n γ (P.inactive γ x g) q')) := by
+          .done st' (slbfgsFailureReturn c.policy false)
+            (SLbfgs.fallback c P.n γ (P.inactive γ x g)
+              (SLbfgs.rhs P c γ x xh p g (P.inactive γ x g)))) := by
   have hlen := slbfgs_rhs_length P c γ x xh p g (P.inactive γ x g)
   have hfJ : ((SLbfgs.rhs P c γ x xh p g (P.inactive γ x g)).length == (P.inactive γ x g).length) = false := by
     rw [hlen, hp]; simpa using fun h => hJn h.symm
   have hJOK : JOK ((SLbfgs.rhs P c γ x xh p g (P.inactive γ x g)).length == (P.inactive γ x g).length)
       (P.inactive γ x g) (SLbfgs.rhs P c γ x xh p g (P.inactive γ x g)).length :=
     fun _ => ⟨hnd, fun j hj => by rw [hlen, hp]; exact hlt j hj⟩
-  obtain ⟨q', hout, hsp⟩ := Props.C09.applyMasked_eq_restricted c.accel st hI _ γ _ hne hcb hnn hJOK
+  obtain ⟨q', hout, hfq, hsp⟩ := Props.C09.applyMasked_eq_restricted c.accel st hI _ γ _ hne hcb hnn hJOK
   have h0 : ((P.inactive γ x g).length == 0) = false := by
     simpa using fun h => hJ0 (List.length_eq_zero_iff.mp h)
   have hnn' : ((P.inactive γ x g).length == P.n) = false := by simpa using hJn
@@ -572,8 +578,8 @@ theorem slbfgs_apply_partial (P : SProblem α) (c : SCfg α) (st : State α) (hI
     simp only [Props.C09.maskedState] at habs
     refine ⟨st', q'', _, rfl, habs, rfl, ?_, ?_⟩
     · intro hok
-      have hγ : ¬ Props.C09.maskedGamma c.accel st (SLbfgs.rhs P c γ x xh p g (P.inactive γ x g)) γ
-          (P.inactive γ x g) < 0 := by simpa using hok
+      have hγ : Props.C09.maskedFail c.accel st (SLbfgs.rhs P c γ x xh p g (P.inactive γ x g)) γ
+          (P.inactive γ x g) = false := by simpa using hok
       obtain ⟨hG, hoff⟩ := hsp hγ
       rw [hfJ] at hG
       refine ⟨?_, hG, fun j hj => ?_⟩
@@ -581,22 +587,12 @@ theorem slbfgs_apply_partial (P : SProblem α) (c : SCfg α) (st : State α) (hI
           (slbfgs_kernels γ 0 0 0 0 x xh p g q0).2.2.2.2.2.2.2, hm, hok, if_true]
       · rw [hoff hfJ j hj, slbfgs_rhs_K P c γ x xh p g _ j hj]
     · intro hok
+      have hγ : Props.C09.maskedFail c.accel st (SLbfgs.rhs P c γ x xh p g (P.inactive γ x g)) γ
+          (P.inactive γ x g) = true := by simpa using hok
+      have hq := hfq hγ
+      refine ⟨hq, ?_⟩
       simp only [SLbfgs.apply, slbfgsNoFree, slbfgsAllFree, h0, hnn', Bool.false_eq_true, if_false,
-        (slbfgs_kernels γ 0 0 0 0 x xh p g q0).2.2.2.2.2.2.2, hm, hok]
-
-/-- the first loop of `apply_masked` leaves `q` alone when no visited pair is valid on `J` -/
-theorem mrev_q_no_valid (p : C09.Params α) (fJ : Bool) (J : List Nat) (slots : List (Slot α))
-    (is : List Nat) (a : MaskAcc α)
-    (h : ∀ i ∈ is, validJ p fJ J (slots.getD i default) = false) :
-    (is.foldl (maskedRevStep p fJ J slots) a).q = a.q := by
-  induction is generalizing a with
-  | nil => rfl
-  | cons i is ih =>
-    rw [List.foldl_cons, ih _ (fun k hk => h k (List.mem_cons_of_mem _ hk))]
-    have hv := h i (List.mem_cons_self)
-    unfold validJ at hv
-    unfold maskedRevStep
-    simp only [hv, Bool.not_false, if_true]
+        (slbfgs_kernels γ 0 0 0 0 x xh p g q0).2.2.2.2.2.2.2, hm, hok, hq]
 
 /-- `apply_masked` with no stored pair valid on `J` and no usable external scaling (curvature
     policy, or `γ < 0`): it fails and has not touched `q`. -/
@@ -613,17 +609,21 @@ theorem applyMasked_no_valid (p : C09.Params α) (st : State α) (hI : Inv st) (
     have : st.slots.getD i default ∈ st.pairs.reverse := by
       rw [← hmap]; exact List.mem_map.mpr ⟨i, hi, rfl⟩
     exact List.mem_reverse.mp this
+  have hn : lbfgsMaskedNeedGamma (if p.curvature then (-1 : α) else γ) = true := by
+    simp [lbfgsMaskedNeedGamma, hγ]
   have hq := mrev_q_no_valid p (q.length == J.length) J st.slots st.revIdx
-    ⟨st.al, List.replicate st.al.length false, q, if p.curvature then -1 else γ⟩ hvi
+    ⟨st.al, List.replicate st.al.length false, q, if p.curvature then -1 else γ, true⟩ hvi
   have hg := mrev_gamma p (q.length == J.length) J st.slots st.revIdx
-    ⟨st.al, List.replicate st.al.length false, q, if p.curvature then -1 else γ⟩
-  rw [hmap, mGamma_no_valid _ _ _ _ _ (fun c hc => hv c (List.mem_reverse.mp hc))] at hg
+    ⟨st.al, List.replicate st.al.length false, q, if p.curvature then -1 else γ, true⟩
+  rw [hmap, mGamma_no_valid _ _ _ _ _ _ (fun c hc => hv c (List.mem_reverse.mp hc))] at hg
   simp only [] at hq hg
+  have hneed := congrArg Prod.fst hg
+  simp only [] at hneed
   have key : C09.applyMasked p st q γ J =
       .done { st with al := (st.revIdx.foldl (maskedRevStep p (q.length == J.length) J st.slots)
-        ⟨st.al, List.replicate st.al.length false, q, if p.curvature then -1 else γ⟩).al } q false := by
-    simp only [C09.applyMasked, hne, hcb, Bool.false_eq_true, if_false]
-    rw [if_pos (by rw [hg]; exact hγ), hq]
+        ⟨st.al, List.replicate st.al.length false, q, if p.curvature then -1 else γ, true⟩).al } q false := by
+    simp only [C09.applyMasked, hne, hcb, Bool.false_eq_true, if_false, hn, lbfgsMaskedFail]
+    rw [if_pos hneed, hq]
   exact ⟨_, key, rfl⟩
 
 /-- **Failure policy, the documented case**: active and inactive indices present, no stored pair
